@@ -35,6 +35,14 @@ TRUSTED = [
     "(to_valid_value + valid_value_or_raise evaluated on a detached twin; its correctness is C09's subject), the scripted "
     "outcome of application callbacks (return / raise / write-response value), the attribute database (service of a "
     "characteristic, which services/accessories carry a setter_callback)",
+    "connections: every request comes over a real HAPServerProtocol object on a fake transport (timed/untimed requests "
+    "either as HTTP bytes through data_received or by calling the driver with the connection's address); a connection "
+    "ends by the client (connection_lost delivered) or by the server (Connection: close request, HTTP/1.0 request, a "
+    "frame that fails decryption, the idle sweep of HAPServer) through the real close() and, as asyncio does, "
+    "connection_lost(None) on the next loop turn; the next use of the connection index is a NEW protocol object with the "
+    "SAME peer address and port. asyncio contract (modelled): connection_lost is delivered once after transport.close(), "
+    "and a peer address is reused only after that delivery. The model's `lose` op stands for the end of a connection "
+    "however initiated. The session cipher for the bad-frame close is installed by the harness just before the frame",
     "scope (DESIGN C10 Reading): batches address existing characteristics with pairwise distinct (aid,iid); no 'ev' flags "
     "(C12); ALWAYS_NULL characteristics and allow_invalid_client_values are not exercised; handlers are marked verified "
     "(is_encrypted) directly, the 401 path is C03's",
@@ -55,6 +63,52 @@ WRITABLE = {
     "On", "Brightness", "Hue", "Saturation", "RotationSpeed", "TargetHeatingCoolingState", "TargetTemperature",
     "TemperatureDisplayUnits", "TargetDoorState", "LockTargetState", "TargetPosition", "Identify", "Name",
 }
+
+
+IDLE_DT_MS = 90 * 60 * 60 * 1000 + 1000  # the idle sweep closes connections silent for more than 90 h
+TTL_HUGE = 400_000_000  # a client-chosen ttl that outlives the idle timeout (multiple of 125 ms)
+SERVER_CLOSES = ["close-header", "http10", "bad-frame"]  # ways the SERVER ends a connection (plus the idle sweep)
+
+
+class Transport(asyncio.Transport):
+    """Socket stand-in that behaves like asyncio's selector transport: close() only marks the
+    transport closing; the protocol's connection_lost(None) is delivered once, on a later loop turn."""
+
+    def __init__(self, peer):
+        super().__init__()
+        self.peer = peer
+        self.proto = None
+        self.out: List[bytes] = []
+        self.closing = False
+        self.delivered = False
+
+    def get_extra_info(self, name, default=None):
+        return self.peer if name == "peername" else default
+
+    def set_write_buffer_limits(self, high=None, low=None):
+        pass
+
+    def write(self, data):
+        if not self.closing:
+            self.out.append(bytes(data))
+
+    def writelines(self, lines):
+        if not self.closing:
+            self.out.extend(bytes(x) for x in lines)
+
+    def write_eof(self):
+        pass
+
+    def close(self):
+        self.closing = True
+
+    def is_closing(self):
+        return self.closing
+
+    def loop_turn(self):
+        if self.closing and not self.delivered:
+            self.delivered = True
+            self.proto.connection_lost(None)
 
 
 class FakeTime:
@@ -133,7 +187,8 @@ class World:
                     svc.setter_callback = self._svc_cb(aid, sidx)
             if aid in self.acc_cb:
                 acc.setter_callback = self._acc_cb(aid, acc)
-        self.handlers: Dict[int, Any] = {}
+        self.driver.http_server.loop = self.loop
+        self.conns: Dict[int, Any] = {}  # conn index -> (HAPServerProtocol, Transport) of the OPEN connection
 
     # --- application callbacks (behaviour scripted per request) -----------------------------
     def _char_cb(self, cid, spec):
@@ -187,23 +242,68 @@ class World:
                 out.append([rev.get(addr, -1), pid, int(round(exp * 1000))])
         return sorted(out)
 
-    def handler(self, conn: int):
-        h = self.handlers.get(conn)
-        if h is None:
-            h = self.hh.HAPServerHandler(self.driver, self.addr(conn))
-            h.is_encrypted = True  # a verified session
-            self.handlers[conn] = h
-        return h
+    def conn(self, conn: int):
+        """The open connection #conn; a new HAPServerProtocol object (same peer address and port as any
+        earlier connection with this index) is accepted when there is none."""
+        c = self.conns.get(conn)
+        if c is None:
+            import pyhap.hap_protocol as hp
+
+            proto = hp.HAPServerProtocol(self.loop, self.driver.http_server.connections, self.driver)
+            tr = Transport(self.addr(conn))
+            tr.proto = proto
+            proto.connection_made(tr)
+            proto.handler.is_encrypted = True  # a verified session
+            c = self.conns[conn] = (proto, tr)
+        return c
+
+    def turn(self):
+        """One loop turn: asyncio delivers connection_lost for every transport that was closed."""
+        for k, (proto, tr) in list(self.conns.items()):
+            tr.loop_turn()
+            if tr.closing:
+                del self.conns[k]
+
+    def raw(self, conn: int, data: bytes):
+        """Feed bytes to the real protocol object; returns (status, json body) of the reply, if any."""
+        proto, tr = self.conn(conn)
+        start = len(tr.out)
+        proto.data_received(data)
+        reply = b"".join(tr.out[start:])
+        self.turn()
+        if not reply:
+            return None, None
+        head, _, rbody = reply.partition(b"\r\n\r\n")
+        return int(head.split(b" ")[1]), (json.loads(rbody) if rbody else None)
 
     def http(self, conn: int, path: str, obj: dict):
-        import h11
-
         body = json.dumps(obj).encode()
-        req = h11.Request(
-            method="PUT", target=path, headers=[("Host", "hap"), ("Content-Length", str(len(body)))]
-        )
-        resp = self.handler(conn).dispatch(req, body)
-        return resp.status_code, (json.loads(resp.body) if resp.body else None)
+        return self.raw(conn, (
+            b"PUT " + path.encode() + b" HTTP/1.1\r\nHost: hap\r\nContent-Type: application/hap+json\r\n"
+            b"Content-Length: " + str(len(body)).encode() + b"\r\n\r\n" + body
+        ))
+
+    def end_connection(self, conn: int, how: str) -> str:
+        """Connection #conn ends. `client`: the peer closes / resets (asyncio delivers connection_lost);
+        otherwise the SERVER closes it (HAPServerProtocol.close()) and asyncio delivers connection_lost on
+        the next loop turn."""
+        proto, tr = self.conn(conn)
+        if how == "close-header":
+            self.raw(conn, b"GET /characteristics?id=1.2 HTTP/1.1\r\nHost: hap\r\nConnection: close\r\n\r\n")
+        elif how == "http10":
+            self.raw(conn, b"GET /characteristics?id=1.2 HTTP/1.0\r\n\r\n")
+        elif how == "bad-frame":
+            from pyhap.hap_crypto import HAPCrypto
+
+            proto.hap_crypto = HAPCrypto(b"\x07" * 32)  # the session's cipher; the next frame does not verify
+            self.raw(conn, b"\x05\x00" + b"\xaa" * 5 + b"\x00" * 16)
+        done = how if tr.closing else "client"
+        if not tr.delivered:  # client close, or the server did not close: the peer goes away
+            tr.delivered = True
+            tr.closing = True
+            proto.connection_lost(None)
+        self.conns.pop(conn, None)
+        return done
 
     # --- one op on the real code ----------------------------------------------------------
     def apply(self, op: dict) -> dict:
@@ -212,11 +312,15 @@ class World:
         CLOCK.now_ms = op["t"]
         if kind == "advance":
             return {}
+        if kind == "idle":  # the clock has jumped past the idle timeout: the server's periodic sweep runs
+            self.driver.http_server.async_cleanup_connections()
+            self.turn()
+            return {"prep": self.prepared()}
         conn = op["conn"]
         if kind == "lose":
-            self.driver.connection_lost(self.addr(conn))
-            self.handlers.pop(conn, None)
-            return {"prep": self.prepared()}
+            how = self.end_connection(conn, op.get("how", "client"))
+            return {"prep": self.prepared(), "closed_by": how}
+        self.conn(conn)  # requests come over an open connection
         if kind == "prepare":
             q = {}
             if op.get("ttl") is not None:
@@ -305,6 +409,8 @@ def stamp(ops: List[dict]) -> List[dict]:
         op = dict(op)
         if op["op"] == "advance":
             t += op["dt"]
+        if op["op"] == "idle":
+            t += IDLE_DT_MS
         op["t"] = t
         out.append(op)
     return out
@@ -422,7 +528,8 @@ def boundary_scripts(rng):
 
     P = lambda conn, ttl, pid, http=False: {"op": "prepare", "conn": conn, "ttl": ttl, "pid": pid, "http": http}  # noqa: E731
     A = lambda dt: {"op": "advance", "dt": dt}  # noqa: E731
-    L = lambda conn: {"op": "lose", "conn": conn}  # noqa: E731
+    L = lambda conn, how="client": {"op": "lose", "conn": conn, "how": how}  # noqa: E731
+    IDLE = {"op": "idle"}
     w = twin()
     on = next(c for c in targets() if c[0] == 2 and w.chars[c].display_name == "On")
     fixed_write = {
@@ -453,6 +560,18 @@ def boundary_scripts(rng):
         [P(0, 500, 7), A(500), W(0, 7), P(0, 500, 7), A(625), W(0, 7)],
         [P(0, 1000, 0), W(0, 0), W(0, 0)],
     ]
+    # a prepare dies with its connection however the connection ended; the next connection from the same
+    # peer address and port starts with nothing (and somebody else's end is irrelevant)
+    for how in SERVER_CLOSES + ["client"]:
+        hs.append([P(0, 1000, 7, True), L(0, how), W(0, 7)])
+        hs.append([P(0, 1000, 7), A(125), L(0, how), A(125), W(0, 7), W(0, 7)])
+        hs.append([P(0, 1000, 7, True), L(1, how), W(0, 7)])
+        hs.append([P(0, 1000, 7), L(0, how), P(0, 1000, 7, True), W(0, 7)])
+        hs.append([P(0, 1000, 7), P(1, 1000, 7), L(0, how), W(1, 7), W(0, 7)])
+    hs.append([P(0, TTL_HUGE, 7, True), IDLE, W(0, 7)])  # idle sweep, ttl still running
+    hs.append([P(0, TTL_HUGE, 7), P(1, TTL_HUGE, 11, True), IDLE, W(1, 11), W(0, 7)])
+    hs.append([P(0, TTL_HUGE, 7, True), A(IDLE_DT_MS), W(0, 7)])  # same wait without a sweep: still live
+    hs.append([P(0, TTL_HUGE, 7), IDLE, P(0, 1000, 7), W(0, 7)])
     return [{"topo": topo, "ops": h} for h in hs]
 
 
@@ -470,7 +589,7 @@ def gen_script(rng):
     for _ in range(rng.choice([2, 3, 4, 5, 6, 8, 10])):
         r = rng.random()
         if r < 0.3:
-            c, p, ttl = rng.choice(conns), rng.choice(pids), rng.choice(TTLS)
+            c, p, ttl = rng.choice(conns), rng.choice(pids), rng.choice(TTLS + ([TTL_HUGE] if rng.random() < 0.5 else []))
             op = {"op": "prepare", "conn": c, "ttl": ttl, "pid": p, "http": rng.random() < 0.4}
             if rng.random() < 0.08:
                 op["ttl" if rng.random() < 0.5 else "pid"] = None
@@ -484,7 +603,7 @@ def gen_script(rng):
             else:
                 dt = rng.choice([0, 125, 250, 375, 500, 1000, 1125])
             ops.append({"op": "advance", "dt": dt})
-        elif r < 0.92:
+        elif r < 0.88:
             if pending and rng.random() < 0.7:
                 c, p, _ = rng.choice(pending)
                 if rng.random() < 0.15:
@@ -493,7 +612,11 @@ def gen_script(rng):
                 c, p = rng.choice(conns), rng.choice([None, None, rng.choice(pids)])
             ops.append(gen_batch(rng, topo, c, p, calm=rng.random() < 0.5))
         else:
-            ops.append({"op": "lose", "conn": rng.choice(conns)})
+            if rng.random() < 0.12:
+                ops.append({"op": "idle"})
+            else:
+                ops.append({"op": "lose", "conn": rng.choice(conns),
+                            "how": rng.choice(["client", "client"] + SERVER_CLOSES + SERVER_CLOSES)})
     if not any(o["op"] == "write" for o in ops):
         ops.append(gen_batch(rng, topo, conns[0], pids[0], calm=True))
     return {"topo": topo, "ops": ops}
@@ -546,12 +669,29 @@ def mixed_boundary(rng):
 # ------------------------------------------------------------------------------- model line
 
 
-def model_line(script: dict) -> dict:
+def model_line(script: dict):
+    """(line for the model driver, index of the model op that answers script op i).  `lose` stands for
+    the end of a connection however it came about; `idle` is a clock jump followed by the loss of
+    every open connection."""
     w = twin()
     ops = []
+    at = []
+    open_conns = set()
     for op in script["ops"]:
+        if op["op"] in ("prepare", "write"):
+            open_conns.add(op["conn"])
+        if op["op"] == "idle":
+            ops.append({"op": "advance", "dt": IDLE_DT_MS})
+            for c in sorted(open_conns) or [0]:
+                ops.append({"op": "lose", "conn": c})
+            open_conns.clear()
+            at.append(len(ops) - 1)
+            continue
+        at.append(len(ops))
+        if op["op"] == "lose":
+            open_conns.discard(op["conn"])
         if op["op"] != "write":
-            ops.append({k: v for k, v in op.items() if k not in ("http", "t")})
+            ops.append({k: v for k, v in op.items() if k not in ("http", "t", "how")})
             continue
         entries = []
         for e in op["entries"]:
@@ -577,7 +717,7 @@ def model_line(script: dict) -> dict:
         },
         "init": [[a, i, ref.canon(w.chars[(a, i)].value) or "null"] for (a, i) in sorted(w.chars)],
         "ops": ops,
-    }
+    }, at
 
 
 def canon_obs(op: dict, obs: dict) -> dict:
@@ -585,7 +725,7 @@ def canon_obs(op: dict, obs: dict) -> dict:
     kind = op["op"]
     if kind == "advance":
         return {}
-    if kind == "lose":
+    if kind in ("lose", "idle"):
         return {"prep": obs["prep"]}
     if kind == "prepare":
         return {"http": obs["http"], "status": obs["status"], "prep": obs["prep"]}
@@ -815,10 +955,25 @@ def minimise(ctx: Ctx, script: dict, signature: str) -> dict:
     return {"topo": script["topo"], "ops": ops}
 
 
+class _Patches:
+    def __enter__(self):
+        import pyhap.hap_protocol as hp
+        import pyhap.hap_server as hs
+
+        ad, _, _, _ = _mods()
+        logging.getLogger("pyhap").setLevel(logging.CRITICAL + 1)
+        self.ps = [patch.object(m, "time", CLOCK) for m in (ad, hp, hs)]
+        for p in self.ps:
+            p.start()
+        return self
+
+    def __exit__(self, *a):
+        for p in self.ps:
+            p.stop()
+
+
 def _patches():
-    ad, _, _, _ = _mods()
-    logging.getLogger("pyhap").setLevel(logging.CRITICAL + 1)
-    return patch.object(ad, "time", CLOCK)
+    return _Patches()
 
 
 def all_scripts(ctx: Ctx):
@@ -834,17 +989,19 @@ def run(ctx: Ctx):
     ad, _, _, _ = _mods()
     st.notes.append(f"implementation under check: {os.path.dirname(ad.__file__)}")
     st.rule = (
-        "one case = one history (prepare / advance / write / lose across up to 3 connections and 2 pids; writes are "
+        "one case = one history (prepare / advance / write / connection end [client close, Connection: close, HTTP/1.0, "
+        "undecryptable frame, idle sweep] followed by new connections from the same peer address, across up to 3 "
+        "connection slots and 2 pids; writes are "
         "batches of 1..7 entries over 4 accessories mixing acceptable, normalised, rejected, null and value-less entries, "
         "characteristic callbacks absent / returning / returning a write-response value / raising, raising service and "
         "accessory callbacks). Deterministic boundary histories first (never prepared, now == expiry, just expired, ttl 0, "
-        "reuse, cross-connection, connection loss, malformed prepare, re-prepare), then every entry kind x callback kind "
+        "reuse, cross-connection, connection loss by every route x same-address reconnect, malformed prepare, re-prepare), then every entry kind x callback kind "
         "next to healthy entries, then random. Non-trivial: a history with a refused timed write, a failing or rejected "
         "entry, a write-response value or a raising service/accessory callback; distinct by canonical history."
     )
     with _patches():
         scripts = all_scripts(ctx)
-        impl_all, lines = [], []
+        impl_all, lines, ats = [], [], []
         first_fail: Dict[str, dict] = {}
         for sc in scripts:
             nfail = len(ctx.failures)
@@ -852,7 +1009,9 @@ def run(ctx: Ctx):
             for f in ctx.failures[nfail:]:
                 first_fail[f.signature] = sc
             impl_all.append((ops, obs))
-            lines.append(model_line(sc))
+            ln, at = model_line(sc)
+            lines.append(ln)
+            ats.append(at)
             _count(ctx, sc, ops, obs)
         # shrink what the oracle found
         for f in ctx.failures:
@@ -863,12 +1022,13 @@ def run(ctx: Ctx):
             small = minimise(ctx, {"topo": sc["topo"], "ops": copy.deepcopy(sc["ops"][: at + 1])}, f.signature)
             f.replay = {"kind": "script", "topo": small["topo"], "ops": small["ops"]}
         model = run_model_parallel("C10", lines)
-        for sc, (ops, obs), m in zip(scripts, impl_all, model):
+        for sc, (ops, obs), m, at in zip(scripts, impl_all, model, ats):
             st.traces_validated += 1
             if "fatal" in m:
                 ctx.disagree("writes", {"topo": sc["topo"], "ops": strip(ops)}, m, None)
                 continue
-            for i, (op, o, mo) in enumerate(zip(ops, obs, m["ops"])):
+            for i, (op, o) in enumerate(zip(ops, obs)):
+                mo = m["ops"][at[i]]
                 ci, cm = canon_obs(op, o), canon_model(op, mo)
                 if ci != cm:
                     diff = {k: (cm.get(k), ci.get(k)) for k in set(ci) | set(cm) if ci.get(k) != cm.get(k)}
@@ -884,7 +1044,7 @@ def run(ctx: Ctx):
             st.sample({
                 "history": strip(ops),
                 "impl_last_op": novals(canon_obs(ops[-1], obs[-1])),
-                "model_last_op": novals(canon_model(ops[-1], model[k]["ops"][-1])) if "ops" in model[k] else model[k],
+                "model_last_op": novals(canon_model(ops[-1], model[k]["ops"][ats[k][-1]])) if "ops" in model[k] else model[k],
             })
 
 
@@ -892,7 +1052,7 @@ def _count(ctx: Ctx, sc, ops, obs):
     st = ctx.stats
     nontrivial = False
     for i, (op, o) in enumerate(zip(ops, obs)):
-        st.hit("op", op["op"] + ("-http" if op.get("http") else ""))
+        st.hit("op", op["op"] + ("-http" if op.get("http") else "") + ("-" + o.get("closed_by", "") if op["op"] == "lose" else ""))
         if op["op"] == "prepare":
             st.hit("outcome", "prepare-ok" if o["status"] == 0 else "prepare-refused")
         if op["op"] != "write":
